@@ -13,7 +13,7 @@ theorem taken_of_some {c : Nat} (hi : Inv h cfg wr s) (hnp : isPost (s.pcs i) = 
   rw [hc] at heq
   simp only [Option.some.injEq] at heq
   subst heq
-  have := (hi.pubBy _ _ hc).2
+  have := (hi.pubBy _ _ hc).2.1
   simp [hnp] at this
 
 theorem taken_mono {final : Nat → Option Nat} {fl : Bool} (b : Bool) (ht : Taken cfg final fl i) :
@@ -61,20 +61,21 @@ theorem inv_cpPut (hi : Inv h cfg wr s) (hpc : s.pcs i = .cpPut) (f : Fault) : I
   rw [hpc] at hg; simp only [Good] at hg
   have hput : ∀ j, j ≠ i → s.pcs j ≠ .lkPut := fun j _ => no_put_of_handler hi (by simp [hg.1]) j
   have hnp : isPost (s.pcs i) = false := by simp [hpc, isPost]
+  have hwr := hg.2
   unfold step
   simp only [hpc]
   cases f <;> simp only [createFinal]
   · split
-    · rename_i hn; exact inv_publish hi _ _ hn hput (by self_good) rfl
+    · rename_i hn; exact inv_publish hi _ _ hn hput (by self_good) rfl hwr
     · rename_i c hc
       refine inv_stay hi _ _ ?_ (by simp [hnp])
       exact ⟨hg.2, taken_of_some hi hnp hc _⟩
   · exact inv_stay hi _ _ (by self_good) (by simp [hnp])
   · split
-    · rename_i hn; exact inv_publish hi _ _ hn hput (by self_good) rfl
+    · rename_i hn; exact inv_publish hi _ _ hn hput (by self_good) rfl hwr
     · exact inv_stay hi _ _ (by self_good) (by simp [hnp])
   · split
-    · rename_i hn; exact inv_publish hi _ _ hn hput (by self_good) rfl
+    · rename_i hn; exact inv_publish hi _ _ hn hput (by self_good) rfl hwr
     · rename_i c hc
       exact inv_stay hi _ _ ⟨hg.2, taken_of_some hi hnp hc _⟩ (by simp [hnp])
 
@@ -97,6 +98,7 @@ theorem inv_rnRename (hi : Inv h cfg wr s) (hpc : s.pcs i = .rnRename) (f : Faul
   have hg := hi.good i
   rw [hpc] at hg; simp only [Good] at hg
   obtain ⟨hh, hw, htmp⟩ := hg
+  have hwr := hw
   have hput : ∀ j, j ≠ i → s.pcs j ≠ .lkPut := fun j _ => no_put_of_handler hi (by simp [hh]) j
   have hnp : isPost (s.pcs i) = false := by simp [hpc, isPost]
   unfold step
@@ -104,16 +106,16 @@ theorem inv_rnRename (hi : Inv h cfg wr s) (hpc : s.pcs i = .rnRename) (f : Faul
   cases f <;> simp only []
   · split
     · rename_i hn; rw [renameEff_none htmp hn]
-      exact inv_publish_mv hi _ _ hn hput (by self_good) rfl
+      exact inv_publish_mv hi _ _ hn hput (by self_good) rfl hwr
     · rename_i c hc
       exact inv_stay hi _ _ ⟨hh, hw, taken_of_some hi hnp hc _⟩ (by simp [hnp])
   · exact inv_stay hi _ _ (by self_good) (by simp [hnp])
   · cases hf : s.final (cfg.tgt i) with
-    | none => rw [renameEff_none htmp hf]; exact inv_publish_mv hi _ _ hf hput (by self_good) rfl
+    | none => rw [renameEff_none htmp hf]; exact inv_publish_mv hi _ _ hf hput (by self_good) rfl hwr
     | some c => rw [renameEff_some htmp hf]; exact inv_stay hi _ _ (by self_good) (by simp [hnp])
   · split
     · rename_i hn; rw [renameEff_none htmp hn]
-      exact inv_publish_mv hi _ _ hn hput (by self_good) rfl
+      exact inv_publish_mv hi _ _ hn hput (by self_good) rfl hwr
     · rename_i c hc
       exact inv_stay hi _ _ ⟨hh, hw, taken_of_some hi hnp hc _⟩ (by simp [hnp])
 
@@ -139,16 +141,30 @@ theorem inv_lkLock (hi : Inv h cfg wr s) (hpc : s.pcs i = .lkLock) (f : Fault) :
   have hnp : isPost (s.pcs i) = false := by simp [hpc, isPost]
   unfold step
   simp only [hpc]
+  have hconf : refuses cfg s i = true → Inv h cfg wr (go s i f (.done .conflict)) := by
+    intro hr
+    simp only [refuses, Bool.and_eq_true, Option.isSome_iff_exists] at hr
+    obtain ⟨-, c, hc⟩ := hr
+    exact inv_stay hi _ _ ⟨hg.2, taken_of_some hi hnp hc _⟩ (by simp [hnp])
   cases f <;> simp only [acquire]
   · split
-    · rename_i hl; exact inv_acquire hi _ _ _ hl (by self_good) (by simp [hnp])
+    · rename_i hl
+      split
+      · rename_i hr; exact hconf hr
+      · exact inv_acquire hi _ _ _ hl (by self_good) (by simp [hnp])
     · exact inv_stay hi _ _ (by self_good) (by simp [hnp])
   · exact inv_stay hi _ _ (by self_good) (by simp [hnp])
   · split
-    · rename_i hl; exact inv_acquire hi _ _ _ hl (by self_good) (by simp [hnp])
+    · rename_i hl
+      split
+      · exact inv_stay hi _ _ (by self_good) (by simp [hnp])
+      · exact inv_acquire hi _ _ _ hl (by self_good) (by simp [hnp])
     · exact inv_stay hi _ _ (by self_good) (by simp [hnp])
   · split
-    · rename_i hl; exact inv_acquire hi _ _ _ hl (by self_good) (by simp [hnp])
+    · rename_i hl
+      split
+      · rename_i hr; exact hconf hr
+      · exact inv_acquire hi _ _ _ hl (by self_good) (by simp [hnp])
     · exact inv_stay hi _ _ (by self_good) (by simp [hnp])
 
 theorem inv_lkHead (hi : Inv h cfg wr s) (hpc : s.pcs i = .lkHead) (f : Fault) : Inv h cfg wr (step cfg s i f) := by
@@ -174,6 +190,7 @@ theorem inv_lkPut (hi : Inv h cfg wr s) (hpc : s.pcs i = .lkPut) (f : Fault) : I
   have hg := hi.good i
   rw [hpc] at hg; simp only [Good] at hg
   obtain ⟨hh, hw, hl, hn⟩ := hg
+  have hwr := hw
   have hput : ∀ j, j ≠ i → s.pcs j ≠ .lkPut := by
     intro j hj hpj
     have := hi.good j
@@ -183,10 +200,10 @@ theorem inv_lkPut (hi : Inv h cfg wr s) (hpc : s.pcs i = .lkPut) (f : Fault) : I
   unfold step
   simp only [hpc]
   cases f <;> simp only []
-  · exact inv_publish hi _ _ hn hput (by self_good) rfl
+  · exact inv_publish hi _ _ hn hput (by self_good) rfl hwr
   · exact inv_stay hi _ _ (by self_good) (by simp [hnp])
-  · exact inv_publish hi _ _ hn hput (by self_good) rfl
-  · exact inv_publish hi _ _ hn hput (by self_good) rfl
+  · exact inv_publish hi _ _ hn hput (by self_good) rfl hwr
+  · exact inv_publish hi _ _ hn hput (by self_good) rfl hwr
 
 theorem inv_lkRel (hi : Inv h cfg wr s) (r : Res) (b : Bool) (hpc : s.pcs i = .lkRel r b) (f : Fault) :
     Inv h cfg wr (step cfg s i f) := by
